@@ -336,7 +336,21 @@ class QGen:
                         self.nops += 3
         elif k == "selectmany":
             os_ = self.objseq(scope, fuel - 1)
-            if os_ is not None:
+            deep3 = [(ov, m) for ov in self.s.classes[os_[1]].methods if ov.kind == "objvec" for m in self.s.classes[ov.cls].methods if m.kind == "vec"] if os_ is not None else []
+            if deep3 and self.chance(1, 2):
+                # flattened over THREE loops: a SelectMany of a SelectMany (chained, or nested - func_adl turns the chain into the nested form)
+                ov, m = self.pick(deep3)
+                v = self.newvar(scope, "j")
+                w = self.newvar(self.bind(scope, v, TObj(os_[1])), "k")
+                self.labels.update({"SelectMany-inner", "SelectMany-three-loops"})
+                if self.noflat:
+                    self.labels.add("aggregate-or-First-over-flattened-sequence")
+                self.nops += 2
+                if self.chance(1, 2):
+                    base = (f"{os_[0]}.SelectMany(lambda {v}: {v}.{ov.name}()).SelectMany(lambda {w}: {w}.{m.name}())", m.ctype)
+                else:
+                    base = (f"{os_[0]}.SelectMany(lambda {v}: {v}.{ov.name}().SelectMany(lambda {w}: {w}.{m.name}()))", m.ctype)
+            elif os_ is not None:
                 vms = [m for m in self.s.classes[os_[1]].methods if m.kind == "vec"]
                 if vms:
                     m = self.pick(vms)
@@ -594,6 +608,25 @@ class QGen:
             return (f"{name}({', '.join(args)})", "double")
         return self.num_leaf(scope)
 
+    def lambda_twice(self, scope, fuel) -> Tuple[str, str]:
+        """a lambda bound to a name and invoked twice with different arguments (one lambda node, two evaluations).  Only as a column of its own:
+        behind a further Select / Where, or inside a value handed on through tuple / dict plumbing, func_adl itself inlines the two calls by
+        substituting into the ONE shared lambda body in place (recorded finding lambda-invoked-twice-inlined)"""
+        # a lambda bound to a name and invoked twice with different arguments (one lambda node, two evaluations)
+        a, ka = self.num(scope, fuel - 1)
+        b, kb = self.num(scope, 0)
+        names = {n for n, _ in scope}
+        g_, x_ = "hg", "hx"
+        while g_ in names:
+            g_ += "g"
+        while x_ in names or x_ == g_:
+            x_ += "x"
+        body = self.pick([f"{x_} * {x_} + 1", f"{x_} * 2", f"abs({x_}) + 0.5", f"({x_} if {x_} > 1 else 0 - {x_})"])
+        comb = self.pick(["+", "-", "*"])
+        self.labels.add("lambda-invoked-twice")
+        self.nops += 2
+        return (f"(lambda {g_}: {g_}({a}) {comb} {g_}({b}))(lambda {x_}: {body})", "double" if ("0.5" in body or "if" in body or ka != "int" or kb != "int") else "int")
+
     def aggregate(self, scope, fuel) -> Tuple[str, str]:
         f = self.f
         opts = [(4, "count"), (4, "sum"), (2, "agg")]
@@ -780,6 +813,8 @@ class QGen:
             opts.append((2, "typed-leaf-seq"))
         if self.f.first and not self.safe and fuel > 1 and not self.noflat:
             opts.append((2, "first-of-seqs"))
+        if self.f.closures and not getattr(self, "no_lambda_twice", 0):
+            opts.append((1, "lambda-twice"))
         # (an enum of a class some object at hand belongs to: the header that defines it is then part of the package)
         enums_here = [e_ for e_ in self.s.enums if e_.in_class and any(isinstance(t, TObj) and t.cls == e_.in_class for _, t in scope)]
         if enums_here:
@@ -796,6 +831,9 @@ class QGen:
         if self.f.seq2d and self.f.closures and outer_objs and not self.noflat:
             opts.append((7, "shadow-two-out"))
         k = self.weighted(opts)
+        if k == "lambda-twice":
+            t_, kind_ = self.lambda_twice(scope, min(fuel, 2))
+            return (t_, TNum(kind_))
         if k == "enum-const":
             # an enum value itself as a column (an integer leaf)
             e_ = self.pick(enums_here)
@@ -1090,6 +1128,7 @@ def queries(draw, schema: Schema, feat: Features = None, fuel_range=(1, 3), extr
         n_items = 1 if force_handon else draw(st.integers(1, 3))
         # items that the second lambda never uses are dropped by func_adl: keep them total (no First / index)
         g.safe += 1
+        g.no_lambda_twice = 1
         for i in range(n_items):
             kind = g.weighted([(4, "objseq"), (2, "num"), (1, "numseq")]) if not force_handon else g.weighted([(3, "objseq"), (1, "numseq")])
             if kind == "objseq":
@@ -1102,6 +1141,7 @@ def queries(draw, schema: Schema, feat: Features = None, fuel_range=(1, 3), extr
                 r = g.unbare(sc, g.numseq(sc, 1))
                 items.append((r[0], TSeq(TNum(r[1]))) if r else (g.lit_int(), TNum("int")))
         g.safe -= 1
+        g.no_lambda_twice = 0
         use_dict = g.chance(1, 2)
         t = g.newvar([], "t")
         want_bare = n_items == 1 and (force_handon or g.chance(1, 2))
